@@ -168,8 +168,11 @@ static void exec(Op& op, int idx)
   else if (k == "rmexp") { g_exps[op.a[0]].reset(); }
   else if (k == "qexp")
   {
+    // two separate library operations, in this order (each is atomic on its own)
     auto& x = g_exps[op.a[0]];
-    H::emit("Q %d %d %d", op.a[0], x->is_satisfied() ? 1 : 0, x->is_saturated() ? 1 : 0);
+    bool const sat = x->is_satisfied();
+    bool const satu = x->is_saturated();
+    H::emit("Q %d %d %d", op.a[0], sat ? 1 : 0, satu ? 1 : 0);
   }
   else if (k == "qseq") { H::emit("QS %d %d", op.a[0], g_seqs[op.a[0]]->is_completed() ? 1 : 0); }
   else if (k == "obj")
